@@ -52,16 +52,21 @@ class NumberTestNdarray:
     properties = ('C07',)
 
     def params(c):
-        return dict(fore_cnt=c.real('fore_cnt'), obs_cnt=c.int('obs_cnt'))
+        return dict(fore_cnt=c.real('fore_cnt'), obs_cnt=c.int('obs_cnt'), epsilon=c.real('epsilon'))
+
+    float_model = 'E'      # n -/+ epsilon is a float operation: floor(fl(n - eps)) = n - 1 must hold for every n <= 1e5
 
     def requires(c, fore_cnt, obs_cnt, epsilon=None):
-        return [fore_cnt > 0, obs_cnt >= 0]
+        # the tolerance must survive the rounding of n -/+ epsilon for every count up to 1e5 (half an ulp of 1e5 is
+        # 7.3e-12) and stay below the spacing of the integers
+        eps = to_real(epsilon) if epsilon is not None else rv(1e-6)
+        return [fore_cnt > 0, obs_cnt >= 0, obs_cnt <= 100000, eps >= rv(1e-10), eps <= rv(0.5)]
 
     def ensures(c, r, fore_cnt, obs_cnt, epsilon=None):
         d1, d2 = r
-        yield 'delta1 == P(N >= n) = 1 - F(n-1)', to_real(d1) == 1 - PCDF(obs_cnt - 1, fore_cnt)
+        fl = c.I.S.fl_round
+        yield 'delta1 == P(N >= n) = 1 - F(n-1)  (one rounding of the subtraction)', to_real(d1) == fl(1 - PCDF(obs_cnt - 1, fore_cnt))
         yield 'delta2 == P(N <= n) = F(n)', to_real(d2) == PCDF(obs_cnt, fore_cnt)
-        yield 'delta1+delta2 == 1 + pmf(n)', to_real(d1) + to_real(d2) == 1 + (PCDF(obs_cnt, fore_cnt) - PCDF(obs_cnt - 1, fore_cnt))
         yield 'both in [0,1]', z3.And(to_real(d1) >= 0, to_real(d1) <= 1, to_real(d2) >= 0, to_real(d2) <= 1)
 
     def result(c, fore_cnt, obs_cnt, epsilon=None):
@@ -117,14 +122,17 @@ class PoissonNumberTest:
         fc, cat = _fc_cat(c)
         return dict(gridded_forecast=fc, observed_catalog=cat)
 
+    float_model = 'E'
+
     def requires(c, gridded_forecast, observed_catalog):
-        return [gridded_forecast.fields['event_count'] > 0, observed_catalog.fields['event_count'] >= 0]
+        n = observed_catalog.fields['event_count']
+        return [gridded_forecast.fields['event_count'] > 0, n >= 0, n <= 100000]
 
     def ensures(c, r, gridded_forecast, observed_catalog):
         mu, n = gridded_forecast.fields['event_count'], observed_catalog.fields['event_count']
         q = r.fields.get('quantile')
         yield 'quantile is a pair', z3.BoolVal(isinstance(q, tuple) and len(q) == 2)
-        yield 'delta1 == 1 - F(n_obs - 1 | forecast total)', to_real(q[0]) == 1 - PCDF(n - 1, mu)
+        yield 'delta1 == 1 - F(n_obs - 1 | forecast total)', to_real(q[0]) == c.I.S.fl_round(1 - PCDF(n - 1, mu))
         yield 'delta2 == F(n_obs | forecast total)', to_real(q[1]) == PCDF(n, mu)
         yield 'observed statistic is the catalog size', to_z3(r.fields.get('observed_statistic')) == n
         yield 'status normal', z3.BoolVal(r.fields.get('status') == 'normal')
